@@ -212,6 +212,13 @@ class DataMixin:
                 return VStr('<str>')
             n = len(obj.s)
             return VStr(obj.s[self.concrete_bound(lo, n, 0):self.concrete_bound(hi, n, n)])
+        if isinstance(obj, VView):
+            a, b = self.view_bounds(obj, lo, hi, node)
+            return VView(obj.addr, a, b)
+        if isinstance(obj, VBytes) or (isinstance(obj, VRef) and isinstance(ex.heap[obj.addr], HBuf)):
+            bs = obj.e if isinstance(obj, VBytes) else ex.heap[obj.addr].seq
+            pre, mid, post = self.split3(bs, lo, hi, node)
+            return VBytes(mid)
         seq = None
         if isinstance(obj, VSeq):
             seq = obj.e
@@ -325,8 +332,71 @@ class DataMixin:
             return m(ex, [obj, idx, value], {})
         raise Undecided(f'item store on {obj!r}')
 
+    # ------------------------------------------------------------------ byte buffers (bytearray / memoryview)
+    def view_bounds(self, view, lo, hi, node):
+        """absolute offsets of view[lo:hi] inside the buffer (Python slice clamping; negative constants count from the end)"""
+        ex = self.ex
+        n = view.hi - view.lo
+
+        def bound(b, default):
+            if b is None or b is NONE:
+                return default
+            t = smt.simp(self.as_int(b, node, 'slice bound'))
+            if z3.is_int_value(t) and t.as_long() < 0:
+                t = z3.If(n + t < 0, z3.IntVal(0), n + t)
+            else:
+                ex.require('safe', t >= 0, 'non-negative slice bound (negative symbolic bounds not modelled)', node)
+            return z3.If(t > n, n, t)
+        a = bound(lo, z3.IntVal(0))
+        b = bound(hi, n)
+        b = z3.If(b < a, a, b)
+        return smt.simp(view.lo + a), smt.simp(view.lo + b)
+
+    def view_bytes(self, view):
+        seq = self.ex.heap[view.addr].seq
+        a, rest = self.take_drop(seq, view.lo)
+        mid, post = self.take_drop(rest, view.hi - view.lo)
+        return mid
+
+    def buf_write(self, addr, at, data):
+        """overwrite len(data) bytes of the buffer starting at offset `at` (the caller has established that they fit)"""
+        h = self.ex.heap[addr]
+        pre, rest = self.take_drop(h.seq, at)
+        old, post = self.take_drop(rest, z3.Length(data))
+        h.seq = z3.Concat(pre, data, post)
+
+    def cm_HBuf_extend(self, buf, other):
+        h = self.ex.heap[buf.addr]
+        if isinstance(other, VBytes):
+            h.seq = z3.Concat(h.seq, other.e)
+            return NONE
+        if isinstance(other, VRef) and isinstance(self.ex.heap[other.addr], HBuf):
+            h.seq = z3.Concat(h.seq, self.ex.heap[other.addr].seq)
+            return NONE
+        raise Undecided(f'bytearray.extend({other!r})')
+
     def setslice(self, obj, lo, hi, value, node):
         ex = self.ex
+        if isinstance(obj, VView) or (isinstance(obj, VRef) and isinstance(ex.heap[obj.addr], HBuf)):
+            if isinstance(value, VRef) and isinstance(ex.heap[value.addr], HBuf):
+                value = VBytes(ex.heap[value.addr].seq)
+            if isinstance(value, VView):
+                value = VBytes(self.view_bytes(value))
+            if not isinstance(value, VBytes):
+                raise Undecided(f'slice store of {value!r} into a byte buffer')
+            view = obj if isinstance(obj, VView) else VView(obj.addr, z3.IntVal(0), z3.Length(ex.heap[obj.addr].seq))
+            a, b = self.view_bounds(view, lo, hi, node)
+            if isinstance(obj, VView):
+                # a memoryview cannot change the size of its buffer: the two sides must have the same length (ValueError otherwise)
+                if not ex.branch(z3.Length(value.e) == b - a, f'L{getattr(node, "lineno", 0)}:view-store-fits'):
+                    raise PyRaise(self.mkexc('ValueError', 'memoryview assignment: lvalue and rvalue have different structures'))
+                self.buf_write(obj.addr, a, value.e)
+            else:
+                h = ex.heap[obj.addr]
+                pre, rest = self.take_drop(h.seq, a)
+                old, post = self.take_drop(rest, b - a)
+                h.seq = z3.Concat(pre, value.e, post)
+            return
         if isinstance(obj, (VTuple, VSeq)):
             self.throw('TypeError', "'tuple' object does not support item assignment")
         if isinstance(obj, VSym):
@@ -414,6 +484,10 @@ class DataMixin:
             return VInt(len(v.items))
         if isinstance(v, VSeq) or isinstance(v, VBytes):
             return VInt(z3.Length(v.e))
+        if isinstance(v, VView):
+            return VInt(smt.simp(v.hi - v.lo))
+        if isinstance(v, VRef) and isinstance(ex.heap[v.addr], HBuf):
+            return VInt(z3.Length(ex.heap[v.addr].seq))
         if isinstance(v, VStr):
             return VInt(len(v.s))
         if isinstance(v, VListAt):
